@@ -80,9 +80,15 @@ func (s *sim) Next(rng *simcore.RNG) simcore.Op {
 		}
 	}
 	var snapAns []int
+	fresh := false // some peer has not yet advertised everything it has on this connection
 	for _, p := range alive {
-		if s.snapReqs[p] > 0 && len(s.advertisable(p)) > 0 {
+		if ks := s.advertisable(p); s.snapReqs[p] > 0 && len(ks) > 0 {
 			snapAns = append(snapAns, p)
+			for _, k := range ks {
+				if !s.adverts[p][s.cat[k].key()] {
+					fresh = true
+				}
+			}
 		}
 	}
 	const (
@@ -107,10 +113,13 @@ func (s *sim) Next(rng *simcore.RNG) simcore.Op {
 		w[aAnsChunk] = 30
 	}
 	if len(snapAns) > 0 {
-		w[aAnsSnap] = 25
+		w[aAnsSnap] = 3
+		if fresh {
+			w[aAnsSnap] = 25
+		}
 	}
 	if wild && len(alive) > 0 {
-		w[aSpontSnap] = 3
+		w[aSpontSnap] = 2
 	}
 	if flag("f_chunk") && len(alive) > 0 && s.m.live() {
 		w[aSpontChunk] = 7
@@ -125,7 +134,7 @@ func (s *sim) Next(rng *simcore.RNG) simcore.Op {
 		w[aRmPeer] = 2
 	}
 	w[aTick] = 8
-	if w[aVerdict]+w[aAnsChunk]+w[aAnsSnap] == 0 {
+	if w[aVerdict]+w[aAnsChunk] == 0 && !fresh {
 		w[aTick] = 40
 	}
 	if flag("f_rpc") && len(s.rpc) == 2 {
